@@ -26,7 +26,15 @@ def reportLines (st : St) : List String :=
     | none => []
     | some db =>
       let ts := (st.tables.find? (·.1 == n)).map (·.2) |>.getD []
-      ((Db.tableLines db ts).2.filter fun l => !l.startsWith "counter ").map fun l => s!"db {hexOrDash n.toUTF8.toList} {l}"
+      -- the catalog of the database: the names `sys_pages` lists, without the two catalog tables
+      let catLine : String := match Store.fetchTable "sys_pages".toUTF8.toList db.store with
+        | .ok (rows, _) _ =>
+          let names := rows.filterMap fun r => match r.2.head? with
+            | some (Tuple.Val.str b) => if b == "sys_pages".toUTF8.toList || b == "sys_schema".toUTF8.toList then none else some (hexOrDash b)
+            | _ => none
+          (s!"db {hexOrDash n.toUTF8.toList} catalog " ++ " ".intercalate (names.foldl (fun acc k => insertSortedStr k acc) [])).trimAscii.toString
+        | _ => s!"db {hexOrDash n.toUTF8.toList} catalog err"
+      [catLine] ++ ((Db.tableLines db ts).2.filter fun l => !l.startsWith "counter ").map fun l => s!"db {hexOrDash n.toUTF8.toList} {l}"
   [dbsLine] ++ tl ++ ["end"]
 
 def stepLine (st : St) (line : String) : St × List String :=
@@ -120,6 +128,15 @@ def judgeLine (j : J) (op : String) (outs : List String) : J × List String :=
     let v0 := if out == wantDbs then [] else [vio j "sess:databases-differ" s!"want=[{wantDbs}] got=[{out}]"]
     let vs := (outs.drop 1).filterMap fun l =>
       match words l with
+      | "db" :: dbh :: "catalog" :: rest =>
+        -- each database holds exactly the tables created while it was selected
+        let dbn := String.fromUTF8? (ByteArray.mk ((bytesOfHex dbh).getD []).toArray) |>.getD ""
+        match j.dbs.find? (·.1 == dbn) with
+        | none => none
+        | some p =>
+          let want := (p.2.map fun t => hexOrDash t.name).foldl (fun acc k => insertSorted k acc) []
+          if rest == want then none
+          else some (vio j "sess:catalog-differs" s!"db={dbn} want=[{" ".intercalate want}] got=[{" ".intercalate rest}]")
       | "db" :: dbh :: "table" :: th :: rest =>
         let dbn := String.fromUTF8? (ByteArray.mk ((bytesOfHex dbh).getD []).toArray) |>.getD ""
         let tn := (bytesOfHex th).getD []
